@@ -217,6 +217,52 @@ def zero_edge(cond, from_div):
     return None
 
 
+TRAP_HELPERS = {}          # static function -> {parameter index: kind}: traps (DIVIDE_BY_ZERO) when that parameter is zero, divides nothing itself
+
+
+def trap_helper_params(fn):
+    """{param index: kind} for a static function that tests a parameter for zero and reaches __gmp_divide_by_zero on the zero edge"""
+    out = {}
+    if not fn.get("static"):
+        return out
+    for i, p in enumerate(fn["params"]):
+        ct = p.get("ct", "")
+        kind = "mpz" if "__mpz_struct" in ct else "mpq" if "__mpq_struct" in ct else "mpf" if "__mpf_struct" in ct else \
+            ("ui" if "*" not in ct and ("long" in ct or "int" in ct) else None)
+        if kind is None:
+            continue
+        probe = dict(findings=[], stats=collections.Counter(), samples=[], notes=[])
+        g = guards_of(fn, i, kind)
+        if g:
+            out[i] = kind
+    return out
+
+
+def guards_of(fn, pidx, kind):
+    blocks = sa.blocks_by_id(fn)
+    pid, derived, from_div = divisor_exprs(fn, pidx, kind)
+    dom, preds = dominators(fn)
+    dz = [b["id"] for b in fn["blocks"] for el in b["elems"]
+          if el["e"].get("k") == "call" and el["e"].get("callee") == "__gmp_divide_by_zero"]
+    guards = set()
+    for z in dz:
+        cur, hops = z, 0
+        while hops < 6:
+            ps = list(preds[cur])
+            if len(ps) != 1:
+                break
+            p = blocks[ps[0]]
+            t = p.get("term")
+            if t and t.get("cond") and len(p["succs"]) == 2:
+                ze = zero_edge(sa.effective_cond(t), from_div)
+                if ze is not None and p["succs"][ze] == cur:
+                    guards.add(p["id"])
+                break
+            cur = p["id"]
+            hops += 1
+    return guards
+
+
 def analyse(fn, pidx, kind, family, prop, res):
     defined0 = kind.endswith("0")
     kind = kind.rstrip("0")
@@ -227,6 +273,18 @@ def analyse(fn, pidx, kind, family, prop, res):
     dz = [b["id"] for b in fn["blocks"] for el in b["elems"]
           if el["e"].get("k") == "call" and el["e"].get("callee") == "__gmp_divide_by_zero"]
     guards = set()
+    # a unit-local helper that traps on a zero divisor, called with the divisor: the call is the guard for everything after it
+    guard_calls = []
+    for b in fn["blocks"]:
+        for el in b["elems"]:
+            e = el["e"]
+            if e.get("k") == "call" and e.get("callee") in TRAP_HELPERS and e.get("callee") != fn["name"]:
+                for i_, k_ in TRAP_HELPERS[e["callee"]].items():
+                    if i_ < len(e.get("args", [])):
+                        a_ = e["args"][i_]
+                        v_ = base_var(a_)
+                        if (v_ is not None and v_["id"] == pid and k_ == kind) or (kind == "ui" and k_ == "ui" and from_div(a_)):
+                            guard_calls.append((b["id"], el["line"]))
     for z in dz:
         # walk back through single-predecessor straight-line blocks to the deciding branch
         cur, hops = z, 0
@@ -294,9 +352,10 @@ def analyse(fn, pidx, kind, family, prop, res):
         res["samples"].append(dict(rule="R-DIVZERO", function=name, file=relpath(fn["file"]), divisor=fn["params"][pidx]["name"],
                                    verdict="zero divisor defined: %d division-like operations behind the non-zero edge" % len(danger)))
         return
-    if guards:
+    if guards or guard_calls:
         res["stats"]["guarded_here"] += 1
-        bad = [(bid, ln, what) for bid, ln, what in danger if not any(g in dom[bid] and g != bid for g in guards)]
+        bad = [(bid, ln, what) for bid, ln, what in danger if not any(g in dom[bid] and g != bid for g in guards)
+               and not any(gb in dom[bid] and (gb != bid or gl <= ln) for gb, gl in guard_calls)]
         for bid, ln, what in bad:
             F.append(Finding(prop, "R-DIVZERO", fn["file"], ln, name, "unguarded:%s" % what,
                              "%s at line %d is reachable without passing the divisor == 0 test that leads to DIVIDE_BY_ZERO" % (what, ln)))
@@ -324,8 +383,17 @@ def run(prop="C02", tier="quick"):
     for cols in spec_tsv("division_api.tsv", 4):
         family[cols[0]] = (int(cols[1]), cols[2])
     fix = {"fix_div_noguard": (2, "ui"), "fix_div_late_guard": (2, "ui"), "fix_div_good": (2, "ui"), "fix_div_deleg": (2, "mpz"),
-           "fix_div_abs_lt1": (2, "mpz"), "fix_div_signed_lt1": (2, "mpz"), "fix_div_alias_good": (2, "mpz"), "fix_div_alias_bad": (2, "mpz")}
+           "fix_div_abs_lt1": (2, "mpz"), "fix_div_signed_lt1": (2, "mpz"), "fix_div_alias_good": (2, "mpz"), "fix_div_alias_bad": (2, "mpz"),
+           "fix_div_helper_good": (2, "mpz"), "fix_div_helper_bad": (2, "mpz")}
     byname = {}
+    TRAP_HELPERS.clear()
+    for path, fn in ex.functions():
+        if fn.get("static") and any(el["e"].get("k") == "call" and el["e"].get("callee") == "__gmp_divide_by_zero"
+                                    for b in fn["blocks"] for el in b["elems"]):
+            tp = trap_helper_params(fn)
+            if tp:
+                TRAP_HELPERS[fn["name"]] = tp
+    res["stats"]["trap_helpers"] = len(TRAP_HELPERS)
     for path, fn in ex.functions():
         if fn["name"] in family or fn["name"] in fix:
             byname[fn["name"]] = fn
@@ -344,7 +412,8 @@ def run(prop="C02", tier="quick"):
     res["findings"] = [f for f in res["findings"] if f.file != FIXTURE]
     res["samples"] = [s for s in res["samples"] if not s["function"].startswith("fix_")]
     exp = {"fix_div_noguard": "no-guard", "fix_div_late_guard": "unguarded", "fix_div_good": None, "fix_div_deleg": None,
-           "fix_div_abs_lt1": None, "fix_div_signed_lt1": "no-guard", "fix_div_alias_good": None, "fix_div_alias_bad": "no-guard"}
+           "fix_div_abs_lt1": None, "fix_div_signed_lt1": "no-guard", "fix_div_alias_good": None, "fix_div_alias_bad": "no-guard",
+           "fix_div_helper_good": None, "fix_div_helper_bad": "no-guard"}
     for fname, sig in exp.items():
         got = [f.signature for f in fx if f.function == fname]
         if sig is None and got:
@@ -354,6 +423,6 @@ def run(prop="C02", tier="quick"):
     res["stats"]["entry_points"] -= len(fix)
     res["stats"] = dict(res["stats"])
     res["obligations"] = res["stats"]["entry_points"] + res["stats"].get("dangerous_ops", 0)
-    res["notes"].append("fixtures: 4 positive fired, 4 negative silent")
+    res["notes"].append("fixtures: 5 positive fired, 5 negative silent")
     res["exhaustive"] = True
     return res
